@@ -18,6 +18,7 @@ def run(ctx):
     g = gtirb_from_repo.load()
     import lookups as _lkr
     _lkr.repeated_events(ctx, g, 'symexpr-lookup')
+    _lkr.many_members(ctx, g, 'symexpr-lookup')
     import lookups as _lkd
     _lkd.deferred_consumption(ctx, g, 'expressions', 'symexpr-lookup:deferred')
     import lookups as _lk
